@@ -100,6 +100,17 @@ CHECKS = {
    technique="bounded exhaustive input enumeration against a reference model",
    design="3/C18"),
 }
+# the size sweeps (DESIGN.md 2.3) joined these checks late; one sentence for all of them
+SWEEPS = {
+ "dsl": " Size sweeps: one dimension of a model (operands, relations, types, conditions, parameters, list entries, nesting depth, name and line length) scaled through sizes 4..128 around common thresholds, contents in scrambled order, declarations before and after the large part.",
+ "graph": " Size sweeps: operands, relations, types on one tuple cycle, restrictions, chains of n hops, parent types, public types, conditions on one edge scaled through n = 13, 33, 65 (quick), built under the default schedule and from every first start node of the weight assignment.",
+ "merge": " Size sweeps: n files extending one type, one extension with n relations, n extend blocks, n types and n conditions (n = 5, 13, 33 quick), each with a conflict in the middle; file lists longer than four in five orders.",
+}
+for cid, kind in {"C01": "dsl", "C02": "dsl", "C03": "dsl", "C09": "dsl", "C13": "dsl", "C14": "dsl", "C16": "dsl",
+                  "C04": "graph", "C05": "graph", "C06": "graph", "C10": "graph", "C11": "graph", "C17": "graph",
+                  "C07": "merge", "C12": "merge"}.items():
+    if cid in CHECKS and "Size sweeps" not in CHECKS[cid]["text"]:
+        CHECKS[cid]["text"] += SWEEPS[kind]
 ALL = ["C%02d" % i for i in range(1, 20)]
 NOT_YET = {}
 for c in ALL:
